@@ -13,8 +13,10 @@ Implementation runner / direct oracle (no reference to the Lean model):
   state and the final parameters are compared BITWISE (msgpack bytes: dtype, shape, raw buffer) with the
   uninterrupted run.  Also: bytes(restore(bytes(s))) == bytes(s); input purity (update on writable numpy copies of the
   state leaves must leave them unchanged; update on the read-only numpy leaves `from_bytes` returns must not raise).
-  Differences between an eager update fed raw numpy leaves and the uninterrupted run are XLA constant folding
-  (1 ulp), counted as information only.
+  An update fed the RAW numpy leaves of from_bytes must also reproduce the uninterrupted run bitwise (update and new
+  state) wherever the unchanged tree does (SM3, pmap, sharded: everything; eager DS / Tearfree: every leaf that does
+  not depend on the second-moment statistics, see `numpy_fed_policy`); 1-ulp XLA constant-folding differences in the
+  statistics-dependent leaves are counted per variant and graft type as information only.
 
 Correspondence with `Model/PyTree.lean` (EXACT): the real state of every case (leaves replaced by integer ids) is
 described as a tree (node kinds, class names, keys, static `pytree_node=False` fields) and
@@ -498,6 +500,33 @@ def _diff_classes(a_bytes, b_bytes):
     return sorted(classes), first[0]
 
 
+def _diff_classes_only(a_bytes, b_bytes, wanted):
+    """first difference among the leaves of the given classes"""
+    import numpy as np
+    from flax import serialization as ser
+    a, b = ser.msgpack_restore(a_bytes), ser.msgpack_restore(b_bytes)
+    found = [None]
+
+    def walk(x, y, path):
+        if found[0]:
+            return
+        if isinstance(x, dict) and isinstance(y, dict):
+            for k in x:
+                if k in y:
+                    walk(x[k], y[k], path + "/" + str(k))
+            return
+        if isinstance(x, dict) or isinstance(y, dict) or x is None or y is None or _leaf_class(path) not in wanted:
+            return
+        xa, ya = np.asarray(x), np.asarray(y)
+        if xa.dtype != ya.dtype or xa.shape != ya.shape:
+            found[0] = f"{path}: {xa.dtype}{list(xa.shape)} vs {ya.dtype}{list(ya.shape)}"
+        elif xa.tobytes() != ya.tobytes():
+            d = float(np.nanmax(np.abs(xa.astype(np.float64) - ya.astype(np.float64))))
+            found[0] = f"{path}: {int((xa != ya).sum())}/{xa.size} entries differ, max |diff| {d:.3e} (|ref| max {float(np.nanmax(np.abs(ya.astype(np.float64)))):.3e})"
+    walk(a, b, "")
+    return wanted, found[0]
+
+
 def _all_classes(a_bytes):
     """leaf classes present in a serialized tree"""
     from flax import serialization as ser
@@ -511,6 +540,28 @@ def _all_classes(a_bytes):
             out.add(_leaf_class(path))
     walk(ser.msgpack_restore(a_bytes), "")
     return sorted(out)
+
+
+def numpy_fed_policy(case, mode):
+    """Which leaves of the NEW STATE (and whether the UPDATE) of an update fed the raw numpy leaves of from_bytes may
+    differ from the uninterrupted run without it being a violation.
+
+    Measured on the unchanged tree (quick seeds 0-3 + thorough seed 0, ~1100 numpy-fed steps, .work/scratch_c14/measure.py):
+    SM3 (eager), DS under pmap and DS sharded under jit are bit-identical in EVERY leaf and in the update -> all hard.
+    In EAGER Distributed Shampoo (full / int8-momentum / compression_rank / frequent_directions) the Kronecker statistics
+    are accumulated inside lax.cond / efficient_cond branches that close over the numpy leaves, XLA folds
+    `old*w1` as a constant and fuses differently (DESIGN section 5 C14): `statistics` differ by 1 ulp in 5-20 % of the steps on
+    the unchanged tree, and with them everything computed FROM them (preconditioners, training_metrics, the Shampoo
+    momentum, the update). The same holds for Tearfree Shampoo (blocks stats / roots), Sketchy (sketches) and the
+    momentum trace fed by their update. Those leaves stay informational. Everything that does not depend on the
+    second-moment statistics — step counters, the grafting accumulators (`diagonal_statistics`, tearfree `norm/*`),
+    the grafting momentum (`diagonal_momentum`), `avg_grad` — was bit-identical in every measured step and is HARD."""
+    if mode != "eager" or case["kind"] == "sm3":
+        return (lambda cls: False), False
+    if case["kind"] == "ds":
+        soft = ("stats/statistics", "stats/preconditioners", "stats/momentum", "stats/training_metrics")
+        return (lambda cls: cls.startswith(soft)), True
+    return (lambda cls: cls == "trace" or cls.endswith("/trace") or "blocks/" in cls or "sketches/" in cls), True
 
 
 def graft_of(case):
@@ -630,6 +681,15 @@ def purity_check(case, mode, k, ref):
         info["numpy_fed_state_classes"] = scls
         info["numpy_fed_diff"] = (("update " + du) if du else None) or (("new state " + dsn) if dsn else None)
         info["numpy_fed_state_detail"] = dsn
+        soft_cls, soft_update = numpy_fed_policy(case, mode)
+        hard = [c for c in scls if not soft_cls(c)]
+        info["numpy_fed_soft_classes"] = [c for c in scls if soft_cls(c)]
+        if hard:
+            _c, d = _diff_classes_only(ser.to_bytes(s2), ref["sb"][k + 1], hard)
+            fail("the state after an eager update fed the raw numpy leaves returned by from_bytes is not bit-identical to the "
+                 f"uninterrupted run in leaves that are bit-identical on the unchanged tree ({', '.join(hard)})", d)
+        if ucls and not soft_update:
+            fail("the update computed from the raw numpy leaves returned by from_bytes is not bit-identical to the uninterrupted run", du)
     except Exception as e:  # noqa: BLE001
         fail("update raised on the read-only numpy leaves returned by flax from_bytes", _exc(e))
     if ser.to_bytes(ro) != ref["sb"][k]:
@@ -936,6 +996,9 @@ def run_case(task):
             if "numpy_fed_bit_equal" in info:
                 nbe += info["numpy_fed_bit_equal"]
                 nne += not info["numpy_fed_bit_equal"]
+                for cl in info.get("numpy_fed_soft_classes", []):
+                    sc = out["info"].setdefault("numpy_fed_soft_classes", {})
+                    sc[cl] = sc.get(cl, 0) + 1
             out["info"]["readonly_leaves"] = max(out["info"].get("readonly_leaves", 0), info.get("readonly_leaves", 0))
         out["info"]["numpy_fed_bit_equal"] = nbe
         out["info"]["numpy_fed_ulp_diff"] = nne
@@ -1041,6 +1104,11 @@ def execute(ctx, cases, no_child=False):
                 ctx.nontrivial((label, json.dumps(c["cfg"], sort_keys=True), json.dumps(c["shapes"]), c["gseed"], e["mode"], e["k"], e["where"]))
         for k in ("numpy_fed_bit_equal", "numpy_fed_ulp_diff"):
             ctx.dist(k, r["info"].get(k, 0))
+            nf = ctx.cov.setdefault("numpy_fed", {}).setdefault(f"{label}|graft={graft_of(c)}|{'eager' if 'eager' in modes_of(c) else modes_of(c)[0]}",
+                                                                {"numpy_fed_bit_equal": 0, "numpy_fed_ulp_diff": 0, "soft_classes_that_differed": {}})
+            nf[k] += r["info"].get(k, 0)
+        for cl, n in r["info"].get("numpy_fed_soft_classes", {}).items():
+            nf["soft_classes_that_differed"][cl] = nf["soft_classes_that_differed"].get(cl, 0) + n
         if r["info"].get("static_same_as_fresh_init") is False:
             ctx.dist("static_part_differs_from_fresh_init")
             ctx.notes.append(f"hypothesis sameStatic(state_k, fresh init) does not hold on a real run ({label}); "
@@ -1107,9 +1175,11 @@ def run(ctx):
     compare_probes(ctx, [p for ch in syn for p in ch])
     ctx.cov["policies"] = {"resume": "BITWISE", "model": "EXACT"}
     d = ctx.cov["distribution"]
-    ctx.notes.append(f"informational (not a violation, DESIGN §5 C14): of the eager updates fed the raw read-only numpy leaves that from_bytes "
-                     f"returns, {d.get('numpy_fed_bit_equal', 0)} were bit-identical to the uninterrupted run and {d.get('numpy_fed_ulp_diff', 0)} "
-                     "differed (XLA folds numpy leaves closed over by lax.cond branches as constants); with jax.Array leaves all runs are bit-identical")
+    ctx.notes.append(f"updates fed the raw read-only numpy leaves that from_bytes returns: {d.get('numpy_fed_bit_equal', 0)} bit-identical (update and "
+                     f"new state) to the uninterrupted run, {d.get('numpy_fed_ulp_diff', 0)} differed ONLY in leaves that differ on the unchanged tree too "
+                     "(second-moment statistics accumulated inside lax.cond branches closing over numpy leaves, and what is computed from them: "
+                     "XLA constant folding, DESIGN §5 C14; per variant / graft type in coverage.numpy_fed). HARD clause: SM3, DS under pmap, DS sharded "
+                     "entirely; eager DS / Tearfree in step counters, grafting accumulators, grafting momentum, avg_grad (see numpy_fed_policy)")
 
 
 def replay(ctx, data):
